@@ -21,7 +21,9 @@ META = {
                'error values print their placeholder; every TimeOffset of +-99:59 prints and parses back with its sign; '
                'no parser detours through the 32-bit epoch-seconds count and no chainable parser rejects on '
                'the value of a parsed numeric field, so every value a printer emits is read back',
-    'not_decided': 'the round trip for every date of the range (sampled, not swept); formatting of values outside +-99:59',
+    'not_decided': 'the round trip for every date of the range (quick tier: 32 dates; thorough tier: six dates of every year of '
+                   '1873..2127, every day of 2000 and 2019, every value of each time field, every offset of +-99:59 - not the product); '
+                   'formatting of values outside +-99:59',
     'assumptions': ['clang 14 parser', 'ace_common::printPad2To prints exactly two characters for values 0..99'],
 }
 
@@ -125,6 +127,12 @@ def roundtrip_rules(R, lib, ob):
     dates = [(y, m, dd) for y in (1873, 1900, 1999, 2000, 2019, 2068, 2100, 2127) for m, dd in ((1, 1), (2, 28), (9, 5), (12, 31))]
     times = [(0, 0, 0), (23, 59, 59), (12, 34, 56), (9, 5, 7)]
     if thorough:
+        # every year of the range at the month ends that matter, every day of a leap and a common year, every value of each
+        # time field
+        dim = (31, 28, 31, 30, 31, 30, 31, 31, 30, 31, 30, 31)
+        dates = sorted(set(dates) | {(y, m, dd) for y in range(1873, 2128) for m, dd in ((1, 1), (2, 28), (3, 1), (9, 5), (10, 10), (12, 31))}
+                       | {(y, m, dd) for y in (2000, 2019) for m in range(1, 13) for dd in range(1, dim[m - 1] + 1 + (y == 2000 and m == 2))})
+        times = times + sorted({(h, 0, 0) for h in range(24)} | {(0, m, 0) for m in range(60)} | {(0, 0, x) for x in range(60)} - set(times))
         offs = list(range(-5999, 6000))
     else:
         offs = sorted(set(list(range(-5999, 6000, 37)) + list(range(-61, 62)) + [-5999, 5999, -960, 960, -480, 330, 345, 765]))
